@@ -66,6 +66,17 @@ def findings():
         return not np.array_equal(np.asarray(B.to_dense()), (1 + 2j) * A.A), np.asarray(B.to_dense()).tolist()
     probe("mul_complex_scalar_real_op", "a complex scalar times a real operator raises TypeError (the scalar is cast to the operator's dtype)", cplx_scalar,
           "(1+2j) * Dense([[1,2],[3,4]])")
+
+    def scal_cplx():
+        S = ops.ScalarMul(3., (2, 2), dtype=np.float32)
+        bad = []
+        for nm, B in (("c*S", (-2 + 2j) * S), ("S*c", S * (-2 + 2j)), ("S*S'", S * ops.ScalarMul(1j, (2, 2), dtype=np.complex128))):
+            want = {"c*S": (-6 + 6j), "S*c": (-6 + 6j), "S*S'": 3j}[nm] * np.eye(2)
+            if not np.array_equal(np.asarray(B.to_dense()).astype(complex), want):
+                bad.append((nm, str(B.dtype)))
+        return bool(bad), bad
+    probe("scalarmul_scalar_keeps_real_dtype", "a complex scalar (or complex ScalarMul) times a real ScalarMul keeps the real dtype: the imaginary part is dropped", scal_cplx,
+          "(-2+2j) * ScalarMul(3., (2,2), dtype=float32)")
     return out
 
 
@@ -76,7 +87,7 @@ class EGen:
     def scalar(self, cplx):
         r = self.rnd
         # complex scalars on real operators only once the recorded TypeError is gone
-        cplx = bool(cplx) or ("mul_complex_scalar_real_op" not in self.present and r.random() < 0.3)
+        cplx = bool(cplx) or (not ({"mul_complex_scalar_real_op", "scalarmul_scalar_keeps_real_dtype"} & set(self.present)) and r.random() < 0.3)
         c = [r.choice([-3, -2, -1, 0, 1, 2, 3]), r.choice([-2, -1, 0, 0, 1, 2]) if cplx else 0]
         kinds = ["int", "float", "npscalar", "arr0"] + (["complex"] * 2 if cplx else [])
         sk = r.choice(kinds)
@@ -231,7 +242,11 @@ def pair_case(eg, i, cplx):
         if o == "div":
             c = r.choice([[1, 0], [-1, 0]] + ([[0, 1], [0, -1]] if cplx else []))
             return dict(op="div", x=leaf(a), c=c, sk=("complex" if c[1] else r.choice(["int", "float"]))), None
-        c, sk = eg.scalar(cplx)
+        # scalar-like roots (ScalarMul / Identity / Diagonal) have their own mul rules: meet them with complex scalars on real payloads too
+        force = k1 in ("Scal", "Ident", "Diag") and r.random() < 0.5 and not ({"mul_complex_scalar_real_op", "scalarmul_scalar_keeps_real_dtype"} & set(eg.present))
+        c, sk = eg.scalar(cplx or force)
+        if force and not c[1]:
+            c, sk = [c[0], r.choice([-2, -1, 1, 2])], "complex"
         return dict(op="mul", x=leaf(a), c=c, sk=sk, side=r.choice("lr")), None
     if o in ("add", "sub"):
         b = T.rooted(gen, k2, m, n, cplx=cplx, depth=1)
